@@ -111,7 +111,12 @@ def confirmed(ck, h, why):
     if tree is None or os.environ.get("VERIF_NO_RERUN"):
         return True
     try:
-        again = run_histories(ck, tree, [h])
+        if str(h.get("id", "")).startswith("wake-"):
+            # a wake-up interleaving (lib/wakeup.py) is not a script of histories.Runner: run the same placement again
+            import wakeup
+            again = [wakeup.run_case(tree, ck.scratch.sub("wk"), list(h["script"][0][1]), h["id"].split("-")[1], seed=h.get("seed", 0))]
+        else:
+            again = run_histories(ck, tree, [h])
         bad2, _ = judge(ck, again)
     except Infra as e:
         log("re-run of history %s failed (%s); the objection stands" % (h.get("id"), str(e)[:200]))
